@@ -90,7 +90,7 @@ func (s *hSchema) tags() string {
 
 // ---- names
 
-var plainNames = []string{"a", "b", "c", "d", "e", "id", "uid", "name", "val", "x1", "y_2", "cx", "cxy", "ab", "abc", "k", "n", "Q", "Zed", "_u"}
+var plainNames = []string{"whereabouts", "a", "b", "c", "d", "e", "id", "uid", "name", "val", "x1", "y_2", "cx", "cxy", "ab", "abc", "k", "n", "Q", "Zed", "_u"}
 var kwSubstrNames = []string{"health_check", "precheck", "check_in", "constraint_log", "my_constraint", "new_t", "new_", "references_to", "generated_as", "as_of", "primary_key", "autoincrement_x", "integer_pk", "foreign_key", "where_x", "WHERE_y", "on_t", "desc_x", "x_desc", "unique_k", "index_i", "default_v", "not_null", "asx", "has"}
 var keywordNames = []string{"select", "order", "table", "check", "constraint", "primary", "key", "references", "as", "index", "where", "default", "group", "unique"}
 var oddNames = []string{"my col", "a b c", "a-b", "a.b", "a,b", "a(b", "a)b", "a(b)", "a'b", `a"b`, "a`b", "a[b", "a]b", "a+b", "a*", "a?", "a|b", "a\\b", "ünï", "1a", "a;b", " lead", "trail ", "a\tb", "CHECK (x)", "x AS (", "tab\"le"}
@@ -589,8 +589,13 @@ func genSchemaAST(r *rng.R, o genOpts) *hSchema {
 			if r.Chance(1, 4) {
 				c := t.Cols[r.Intn(len(t.Cols))]
 				if c.Gen == "" {
-					ix.Where = fmt.Sprintf(rng.Pick(r, []string{"%s > 0", "%s IS NOT NULL", "%s <> 'x'", "%s NOT IN (1, 2)", "(%s >= 0)"}), exprRef(c.Name))
+					ix.Where = fmt.Sprintf(rng.Pick(r, []string{"%[1]s > 0", "%[1]s IS NOT NULL", "%[1]s <> 'x'", "%[1]s NOT IN (1, 2)", "(%[1]s >= 0)",
+						"%[1]s <> 'NOWHERE'", "%[1]s = 'where?'", "%[1]s = 'where' AND %[1]s > 0", "%[1]s <> 'a WHERE b' OR %[1]s IS NULL", "%[1]s <> 'WHERE'"}), exprRef(c.Name))
 					s.tag("idx-partial")
+					if strings.Contains(strings.ToLower(ix.Where), "where") {
+						s.tag("idx-where-in-predicate")
+					}
+
 				}
 			}
 			t.Indexes = append(t.Indexes, ix)
